@@ -215,6 +215,19 @@ macro_rules! shim_common {
                 Err(prev)
             }
 
+            /// Same as the deprecated `compare_and_swap` of the standard atomics.
+            #[inline]
+            pub fn compare_and_swap(&self, current: $val, new: $val, order: Ordering) -> $val {
+                let failure = match order {
+                    Ordering::AcqRel => Ordering::Acquire,
+                    Ordering::Release => Ordering::Relaxed,
+                    o => o,
+                };
+                match self.compare_exchange(current, new, order, failure) {
+                    Ok(v) | Err(v) => v,
+                }
+            }
+
             #[inline]
             pub fn fetch_and(&self, val: $val, order: Ordering) -> $val {
                 self.rmw(order, |x| x.fetch_and(val, order))
@@ -302,3 +315,10 @@ shim_common!(
     true,
     |v: bool| v as usize
 );
+
+impl AtomicBool {
+    #[inline]
+    pub fn fetch_not(&self, order: Ordering) -> bool {
+        self.rmw(order, |x| x.fetch_xor(true, order))
+    }
+}
